@@ -353,7 +353,11 @@ func (g *gen) safeScript(depth, n int, allowPanic bool) []Step {
 		case 7:
 			ss = append(ss, Step{A: "sbs", S: Str(g.payload())})
 		case 8, 9:
-			if depth < g.maxDepth {
+			if allowPanic && g.panicRate > 0 && g.chance(0.08) {
+				// a nested Print whose operand's panic payload panics again,
+				// recovered by the calling user code, which carries on
+				ss = append(ss, Step{A: "prr", V: []Val{g.simple(), {K: "stringer", ID: g.id(), R: "x", P: []Step{{A: "pa", V: []Val{{K: "stringer", ID: g.id(), R: "never", P: []Step{{A: "pa", S: "inner"}}}}}}}}})
+			} else if depth < g.maxDepth {
 				ss = append(ss, Step{A: "pr", V: g.vals(1+g.r.Intn(3), depth+1, true)})
 			} else {
 				ss = append(ss, Step{A: "pr", V: []Val{g.simple()}})
